@@ -13,8 +13,8 @@ from vlib.result import Result, rng_for
 PROPERTY = "C05"
 LEVEL = "exploration"
 RULE = ("stripes: random band-limited (500-6000 Hz AP, 20-200 Hz LF) waveforms of 20-500 uV sampled with the NP1 / NP2 1-shank / NP2 4-shank / "
-        "NPultra delay tables x k-filter / CAR; spikes on <= 7 neighbouring sites at every depth incl. both probe ends; label vectors with a top "
-        "block of outside-brain channels; channel groupings (2-5 groups, unequal sizes) x operator / lagc / butter / vbounds / btype / kfilt "
+        "NPultra delay tables x k-filter / CAR; spikes on <= 7 neighbouring sites at every depth incl. both probe ends; label vectors with outside-brain "
+        "channels as a top block, a top block with a hole, a mid-probe block, a bottom block or scattered; channel groupings (2-5 groups, unequal sizes) x operator / lagc / butter / vbounds / btype / kfilt "
         "settings; AGC window lengths incl. those whose padded FFT size is odd, float32 and float64, dead channels. Non-trivial: stripe with "
         "non-zero delay table and non-constant waveform; distinct = distinct (probe kind, filter, seed) / (function, grouping, settings)")
 ASSUMPTIONS = ["thresholds are the ones the property states: attenuation <= -40 dB on the central two thirds w.r.t. the high-passed input; spike keeps "
@@ -37,7 +37,10 @@ def gen_cases(seed, tier):
                 i += 1
         for j, kind in enumerate(KINDS):
             cases.append({"cls": "lfp", "kind": kind, "seed": seed * 1000 + i + j, "_w": 3})
-            cases.append({"cls": "outside", "kind": kind, "k_filter": bool((rep + j) % 2), "seed": seed * 1000 + i + j, "_w": 3})
+            cases.append({"cls": "outside", "kind": kind, "k_filter": bool((rep + j) % 2), "seed": seed * 1000 + i + j, "_w": 3,
+                          "layout": ["top", "middle", "top-with-hole", "scattered", "bottom"][(rep + j) % 5]})
+            cases.append({"cls": "outside", "kind": kind, "k_filter": bool((rep + j + 1) % 2), "seed": seed * 1000 + i + j + 50, "_w": 3,
+                          "layout": ["middle", "top-with-hole", "scattered", "bottom", "top"][(rep + j) % 5]})
     n = 10 if tier == "quick" else 600
     cases += [{"cls": "groups", "seed": seed * 1000 + j, "n": 4, "_w": 1} for j in range(n)]
     cases += [{"cls": "agc", "seed": seed * 1000 + j, "n": 6, "_w": 1} for j in range(n)]
@@ -116,9 +119,23 @@ def run_case(case):
         ns = 6000
         nout = int(rng.integers(1, 41))
         labels = np.zeros(384)
-        labels[384 - nout:] = 3
+        layout = case.get("layout", "top")
+        if layout == "top":
+            labels[384 - nout:] = 3
+        elif layout == "top-with-hole":      # e.g. a channel inside the block that got another label: here simply kept in the filter
+            nout = max(nout, 4)
+            labels[384 - nout:] = 3
+            labels[384 - int(rng.integers(2, nout))] = 0
+        elif layout == "middle":
+            a = int(rng.integers(20, 300))
+            labels[a:a + nout] = 3
+        elif layout == "bottom":
+            labels[:nout] = 3
+        else:                                # scattered
+            labels[rng.choice(384, nout, replace=False)] = 3
+        nout = int(np.sum(labels == 3))
         x = GS.stripe(rng, ns, fs, h["sample_shift"], 600, 5000, 100e-6) + 20e-6 * rng.standard_normal((384, ns))
-        label = f"{kind} {'k-filter' if kf else 'CAR'} top block of {nout} outside-brain channels"
+        label = f"{kind} {'k-filter' if kf else 'CAR'} {nout} outside-brain channels, layout {layout}"
         try:
             out = V.destripe(x.copy(), fs, h=h, neuropixel_version=1, k_filter=kf, channel_labels=labels.copy())
             ref = F.fshift(hp(x, fs), h["sample_shift"], axis=1)
@@ -145,9 +162,11 @@ def run_case(case):
             g = rng.integers(0, ng, nc) * int(rng.integers(1, 4)) + int(rng.integers(0, 3))
             if rng.random() < 0.5:
                 g = np.sort(g)
-            for gv in np.unique(g):       # each group large enough for the spatial filters
-                if np.sum(g == gv) < 16:
-                    g[g == gv] = np.unique(g)[0]
+            for _k in range(8):            # each group large enough for the spatial filters (sosfiltfilt pads 12 traces): merge small ones into the largest
+                vals, cnt = np.unique(g, return_counts=True)
+                if cnt.min() >= 16 or vals.size == 1:
+                    break
+                g[g == vals[np.argmin(cnt)]] = vals[np.argmax(cnt)]
             x = rng.standard_normal((nc, ns)) * 50e-6 + rng.standard_normal((1, ns)) * 80e-6
             groups = np.unique(g)
             label = f"nc={nc} ns={ns} groups={[int(np.sum(g == v)) for v in groups]}"
